@@ -1,3 +1,124 @@
 use crate::obs::*;
-pub fn path(_rest: &str) -> Obs { none() }
-pub fn json(_rest: &str) -> Obs { none() }
+use miniconf::{IntoKeys, JsonPath, JsonPathIter, Keys, KeyLookup, Leaf, Path, PathIter, Tree, TreeKey};
+
+fn parse_str(rest: &str) -> String {
+    rest.split_whitespace()
+        .map(|x| char::from_u32(x.parse::<u32>().unwrap()).unwrap())
+        .collect()
+}
+
+fn path_with<const S: char>(s: &str) -> Obs {
+    let a: Vec<Obs> = PathIter::<S>::new(Some(s)).map(crate::obs::s).collect();
+    let mut it = PathIter::<S>::root(s);
+    let mut b = vec![];
+    while let Some(x) = it.next() {
+        b.push(crate::obs::s(x));
+    }
+    // fused: keep polling
+    let mut extra = 0;
+    for _ in 0..3 {
+        if it.next().is_some() {
+            extra += 1;
+        }
+    }
+    // the Keys adaptor used by every by-key operation: count keys until exhausted
+    let mut keys = Path::<&str, S>(s).into_keys();
+    let lk = KeyLookup::homogeneous(usize::MAX);
+    let mut n = 0;
+    loop {
+        match keys.next(&lk) {
+            Err(miniconf::Traversal::TooShort(_)) => break,
+            _ => n += 1,
+        }
+        if n > 100000 {
+            break;
+        }
+    }
+    l(vec![l(a), l(b), z(extra), z(n)])
+}
+
+/// `spath <sep code point> <code points...>`
+pub fn path(rest: &str) -> Obs {
+    let mut it = rest.splitn(2, ' ');
+    let sep: u32 = it.next().unwrap().parse().unwrap();
+    let s = parse_str(it.next().unwrap_or(""));
+    match char::from_u32(sep).unwrap() {
+        '/' => path_with::<'/'>(&s),
+        '.' => path_with::<'.'>(&s),
+        '|' => path_with::<'|'>(&s),
+        'é' => path_with::<'é'>(&s),
+        '€' => path_with::<'€'>(&s),
+        '😀' => path_with::<'😀'>(&s),
+        _ => l(vec![z(-997)]),
+    }
+}
+
+/// `sjson <code points...>`
+pub fn json(rest: &str) -> Obs {
+    let s = parse_str(rest);
+    let mut it = JsonPathIter::from(s.as_str());
+    let mut a = vec![];
+    while let Some(x) = it.next() {
+        a.push(crate::obs::s(x));
+    }
+    let rest_at_none: &str = it.into();
+    let mut extra = 0;
+    for _ in 0..3 {
+        if it.next().is_some() {
+            extra += 1;
+        }
+    }
+    let jp = JsonPath(s.as_str());
+    let mut keys = (&jp).into_keys();
+    let lk = KeyLookup::homogeneous(usize::MAX);
+    let mut cnt = 0;
+    loop {
+        match keys.next(&lk) {
+            Err(miniconf::Traversal::TooShort(_)) => break,
+            _ => cnt += 1,
+        }
+        if cnt > 100000 {
+            break;
+        }
+    }
+    l(vec![l(a), crate::obs::s(rest_at_none), z(extra), z(cnt)])
+}
+
+#[derive(Tree, Default)]
+struct Inner {
+    x: Leaf<u8>,
+    long_name: [Leaf<u8>; 12],
+}
+#[derive(Tree, Default)]
+struct Fixed {
+    a: Leaf<u8>,
+    #[tree(rename = "renamed")]
+    b: (Leaf<u8>, Inner),
+    c: [Inner; 3],
+    d: Option<Inner>,
+}
+
+fn write_with<const S: char>(idx: &[usize]) -> Obs {
+    match Fixed::transcode::<Path<String, S>, _>(idx) {
+        Ok((p, node)) => {
+            let back: Vec<Obs> = PathIter::<S>::root(&p.0).map(crate::obs::s).collect();
+            let again = Fixed::transcode::<Path<String, S>, _>(&p).map(|(q, n)| (q.0, n.depth()));
+            l(vec![crate::obs::s(&p.0), z(node.depth()), b(node.is_leaf()), l(back), b(again == Ok((p.0.clone(), node.depth())))])
+        }
+        Err(e) => l(vec![z(-1), z(e.depth())]),
+    }
+}
+
+/// `swrite <indices...>`: written forms of a node of the fixed type, parsed back
+pub fn write(rest: &str) -> Obs {
+    let idx: Vec<usize> = rest.split_whitespace().map(|x| x.parse().unwrap()).collect();
+    let j = match Fixed::transcode::<JsonPath<String>, _>(&idx[..]) {
+        Ok((p, node)) => {
+            let back: Vec<Obs> = JsonPathIter::from(p.0.as_str()).map(crate::obs::s).collect();
+            let again = Fixed::transcode::<JsonPath<String>, _>(&p).map(|(q, n)| (q.0, n.depth()));
+            l(vec![crate::obs::s(&p.0), z(node.depth()), b(node.is_leaf()), l(back), b(again == Ok((p.0.clone(), node.depth())))])
+        }
+        Err(e) => l(vec![z(-1), z(e.depth())]),
+    };
+    l(vec![write_with::<'/'>(&idx), write_with::<'é'>(&idx), write_with::<'😀'>(&idx), j])
+}
